@@ -46,6 +46,8 @@ enum Act {
 struct Scn {
     tick_us: u64,
     epoch_off: u64,
+    /// use exactly UNIX_EPOCH as the configured epoch
+    epoch_zero: bool,
     random_order: bool,
     rng_seed: u64,
     hosts: Vec<HostSpec>,
@@ -121,7 +123,10 @@ fn gen(seed: u64, force_tick_us: Option<u64>) -> Scn {
             if s >= steps {
                 break;
             }
-            if down {
+            if down && r.chance(0.3) {
+                // crashing a host that is already down must not disturb its clock
+                acts.push((s, Act::Crash(i)));
+            } else if down {
                 acts.push((s, Act::Bounce(i)));
                 down = false;
             } else if r.chance(0.75) {
@@ -144,6 +149,7 @@ fn gen(seed: u64, force_tick_us: Option<u64>) -> Scn {
     Scn {
         tick_us,
         epoch_off: r.below(1_000_000),
+        epoch_zero: r.chance(0.1),
         random_order: r.coin(),
         rng_seed: r.next_u64(),
         hosts,
@@ -246,7 +252,7 @@ fn execute(s: &Scn) -> Exec {
     let tick = Duration::from_micros(s.tick_us);
     let mut b = turmoil::Builder::new();
     b.tick_duration(tick)
-        .epoch(epoch(s.epoch_off))
+        .epoch(if s.epoch_zero { std::time::SystemTime::UNIX_EPOCH } else { epoch(s.epoch_off) })
         .rng_seed(s.rng_seed)
         .simulation_duration(Duration::from_secs(100_000));
     if s.random_order {
@@ -313,7 +319,7 @@ fn execute(s: &Scn) -> Exec {
 
 fn check(s: &Scn, ex: &Exec, out: &mut ScenarioOut) {
     let t = s.tick_us * 1000;
-    let ep = (util::EPOCH_SECS + s.epoch_off) * 1_000_000_000;
+    let ep = if s.epoch_zero { 0 } else { (util::EPOCH_SECS + s.epoch_off) * 1_000_000_000 };
     let whole_ms = s.tick_us % 1000 == 0;
     let desc = || {
         json!({"tick_us": s.tick_us, "scenario": format!("{s:?}")})
@@ -425,6 +431,9 @@ fn scenario(s: Scn) -> ScenarioOut {
     out.count("late_registrations", late);
     out.count("step_errs_outside_oracle", ex.step_errs);
     out.saw("tick_us", s.tick_us.to_string());
+    if s.epoch_zero {
+        out.count("scenarios_with_epoch_unix_epoch", 1);
+    }
     let post_bounce = ex.samples.iter().filter(|(_, sm)| sm.inc > 0).count() as u64;
     out.count("samples_after_bounce", post_bounce);
     let fin_bounced = ex.samples.iter().filter(|(_, sm)| sm.inc > 0 && s.hosts[sm.host].finite_host).count() as u64;
@@ -492,6 +501,6 @@ fn fin() -> Finish<'static> {
             "the step a sample belongs to comes from the harness's own step counter".into(),
         ],
         min_distinct: 20,
-        required_counters: vec!["timer_observations", "samples_after_bounce", "samples_after_bounce_of_finished_host", "controller_samples", "late_registrations"],
+        required_counters: vec!["timer_observations", "samples_after_bounce", "samples_after_bounce_of_finished_host", "scenarios_with_epoch_unix_epoch", "controller_samples", "late_registrations"],
     }
 }
